@@ -162,7 +162,14 @@ impl<'a> DataParser<'a> {
             return;
         }
 
-        if self.current_element.len() > 0 {
+        // Whitespace left over after the last item (e.g. between a closing
+        // quote and the colon) is not an item of its own.
+        let has_pending_element = match self.state {
+            ParseState::Normal => !self.current_element.trim().is_empty(),
+            ParseState::InDoubleQuotedString => self.current_element.len() > 0,
+        };
+
+        if has_pending_element {
             self.push_current_element();
         } else if self.elements.len() == 0 {
             self.push_current_element();
